@@ -125,6 +125,9 @@ def build_cases(tier):
                lambda inp: ok([('r', ['in_0', '2', 'in_0', '3'])])))
     C.append(T('blocking_generic_methods', [YIELD, BG], V + 'c := &cell[int]{b}\nc.update(func(x int) int { return slow(x) + 1 })\nd := &cell[string]{"s"}\nd.update(func(x string) string { return x + "t" })\nprintln("r", c.v, len(d.v), apply(int8(a), func(x int8) int { return int(x) * 2 }))',
                lambda inp: ok([('r', ['(+ in_1 1)', '2', '(* 2 (- (mod (+ in_0 128) 256) 128))'])])))
+    # lead reported by a sub-agent: range over a channel whose type is a type parameter
+    C.append(T('range_over_chan_type_param', '//go:noinline\nfunc drain[C ~chan int](c C) int {\n\ts := 0\n\tfor v := range c {\n\t\ts += v\n\t}\n\treturn s\n}\n', V + 'c := make(chan int, 2)\nc <- a\nc <- b\nclose(c)\nprintln("s", drain(c))',
+               lambda inp: ok([('s', ['(+ in_0 in_1)'])])))
     # ---- across packages, both directions
     XP = 'import "verifprog/sub"\ntype mine int16\nfunc (mine) Name() string { return "main.mine" }\n'
     C.append(T('cross_package_instances', XP, V + 'bx := sub.NewBox(a)\nbx.Set(b)\nb8 := sub.Box[int8]{int8(a)}\nstrs := sub.Map([]int{a, b}, func(x int) mine { return mine(x) })\nvals := []interface{}{sub.Wrap(a), sub.IntBox(a), sub.Wrap(int8(a)), sub.Int8Box(int8(a)), sub.Box[int]{a}, sub.Wrap(mine(a))}\ni := NondetRange(2, 0, 5)\nj := NondetRange(3, 0, 5)\n'
